@@ -50,6 +50,7 @@ class Task:
         self.expect_refuted = expect_refuted  # must-fail guard task
         self.thorough_only = thorough_only
         self.cvc5_first = cvc5_first  # string-heavy obligations: ask cvc5 before z3
+        self.cover = True  # path-witness (cover) queries; a task without a native family may switch them off
 
 
 class Bounded:
@@ -177,9 +178,11 @@ def _worker(args):
         task = next(t for t in _MOD.PROPERTY.tasks if t.name == tname)
         from pyvc.interp import Config
         core.CVC5_FIRST = bool(getattr(task, "cvc5_first", False))
+        core.ABSTRACT_STRINGS_FIRST = bool(getattr(task, "abstract_strings", False))
         res = run_task(task.name, task.harness, task.cfg_factory or Config, repo=Repo(REPO),
                        timeout_ms=task.timeout_ms, max_paths=task.max_paths, prune=task.prune,
-                       known_classes=known_classes_for(_KNOWN, task.name))
+                       known_classes=known_classes_for(_KNOWN, task.name),
+                       want_cover=getattr(task, "cover", True))
         return {
             "task": tname, "paths": res.paths, "infeasible": res.infeasible, "outside": res.outside,
             "vcs": [v.as_dict() for v in res.vcs], "covers": res.covers, "wall": res.wall,
